@@ -79,8 +79,13 @@ func (o *offsetReadSeeker) ReadAt(p []byte, off int64) (n int, err error) {
 }
 
 func (o *offsetReadSeeker) ReadByte() (byte, error) {
-	_, err := o.Read(o.b[:])
-	return o.b[0], err
+	n, err := o.Read(o.b[:])
+	if n == 1 {
+		// An io.ReaderAt may report io.EOF together with a full read that ends at the end of its
+		// input; the byte has been consumed, so it must not be returned along with an error.
+		return o.b[0], nil
+	}
+	return 0, err
 }
 
 func (o *offsetReadSeeker) Offset() int64 {
